@@ -19,6 +19,7 @@ std::vector<ShapeEntry> shapes_5()
     FMTCAT_SHAPE("tuple_string", V<std::tuple<Str>>),
     FMTCAT_SHAPE("tuple_scalars", V<std::tuple<int, char, bool, float>>),
     FMTCAT_SHAPE("tuple_cstr_int", V<std::tuple<char const*, int>>),
+    FMTCAT_SHAPE("tuple_empty", V<std::tuple<>>),
     FMTCAT_SHAPE("chrono_seconds", V<ch::seconds>),
     FMTCAT_SHAPE("chrono_milliseconds", V<ch::milliseconds>),
     FMTCAT_SHAPE("chrono_nanoseconds", V<ch::nanoseconds>),
